@@ -99,6 +99,9 @@ def make_serializable(x):
         return {"type": "dict", "data": {k: make_serializable(v) for k, v in x.items()}}
     elif isinstance(x, set):
         return {"type": "set", "data": [make_serializable(v) for v in x]}
+    elif isinstance(x, list):
+        # a new list, so that the serialized form shares no mutable state with x
+        return list(x)
     else:
         return _None_to_str(x)
 
@@ -137,6 +140,9 @@ def deserialize(serializable_x):
             return {k: deserialize(v) for k, v in serializable_x["data"].items()}
         elif data_type == "set":
             return {deserialize(v) for v in serializable_x["data"]}
+    elif isinstance(serializable_x, list):
+        # a new list, so that the restored object shares no mutable state with the serialized form
+        return list(serializable_x)
     else:
         return _str_to_None(serializable_x)
 
